@@ -1,0 +1,99 @@
+// Verification hooks (cargo feature `verif_hooks`, off by default).
+//
+// A thread-local "tape" that lets an external harness observe, and optionally
+// override, every random draw the library makes. With the feature disabled this
+// file is not compiled and no call site exists.
+
+use std::cell::RefCell;
+use std::collections::VecDeque;
+
+/// One recorded draw: the kind of draw and its big-endian value.
+#[derive(Clone, Debug, PartialEq, Eq)]
+pub struct Draw {
+    /// "scalar", "bits", "below", "prime", "rand_int"
+    pub kind: &'static str,
+    /// value drawn (after any override), big-endian, minimal length for integers, 32 bytes for scalars
+    pub value: Vec<u8>,
+    /// value the library's own generator produced (before any override)
+    pub natural: Vec<u8>,
+}
+
+#[derive(Default)]
+struct Tape {
+    active: bool,
+    log: Vec<Draw>,
+    inject: VecDeque<Vec<u8>>,
+}
+
+thread_local! {
+    static TAPE: RefCell<Tape> = RefCell::new(Tape::default());
+}
+
+/// Start recording on this thread; `inject` values (possibly none) override the next draws in order.
+pub fn start(inject: Vec<Vec<u8>>) {
+    TAPE.with(|t| {
+        let mut t = t.borrow_mut();
+        t.active = true;
+        t.log.clear();
+        t.inject = inject.into();
+    });
+}
+
+/// Stop recording and return the draws made since `start`.
+pub fn stop() -> Vec<Draw> {
+    TAPE.with(|t| {
+        let mut t = t.borrow_mut();
+        t.active = false;
+        t.inject.clear();
+        std::mem::take(&mut t.log)
+    })
+}
+
+/// Whether a tape is active on this thread.
+pub fn active() -> bool {
+    TAPE.with(|t| t.borrow().active)
+}
+
+fn draw(kind: &'static str, natural: Vec<u8>) -> Option<Vec<u8>> {
+    TAPE.with(|t| {
+        let mut t = t.borrow_mut();
+        if !t.active {
+            return None;
+        }
+        let injected = t.inject.pop_front();
+        let value = injected.clone().unwrap_or_else(|| natural.clone());
+        t.log.push(Draw { kind, value, natural });
+        injected
+    })
+}
+
+#[cfg(feature = "bbsplus")]
+/// Called by `calculate_random_scalars` after the production generator has filled `v`.
+pub fn on_scalars(v: &mut Vec<bls12_381_plus::Scalar>) {
+    use bls12_381_plus::Scalar;
+    for s in v.iter_mut() {
+        if let Some(bytes) = draw("scalar", s.to_be_bytes().to_vec()) {
+            if let Ok(arr) = <[u8; 32]>::try_from(bytes.as_slice()) {
+                if let Some(x) = Option::<Scalar>::from(Scalar::from_be_bytes(&arr)) {
+                    *s = x;
+                }
+            }
+        }
+    }
+}
+
+#[cfg(feature = "cl03")]
+/// Called by the CL03 random helpers with the value they are about to return.
+pub fn on_integer(kind: &'static str, i: &mut rug::Integer) {
+    use rug::integer::Order;
+    if let Some(bytes) = draw(kind, i.to_digits::<u8>(Order::MsfBe)) {
+        *i = rug::Integer::from_digits(&bytes, Order::MsfBe);
+    }
+}
+
+#[cfg(feature = "cl03")]
+/// Shadowing form of [`on_integer`].
+pub fn map_integer(kind: &'static str, mut i: rug::Integer) -> rug::Integer {
+    on_integer(kind, &mut i);
+    i
+}
